@@ -5,8 +5,8 @@ import drv_walk
 LEVEL = "model_checking"
 TABLE, ENTRY = [7, 2], [7, 2, 1]
 NEIGH = [[7, 1, 0], [7, 3, 0], [7, 20, 1, 1]]
-IDX_Q = [[1], [2], [1, 0], [1, 2], [0]]
-IDX_T = [[1], [2], [10], [1, 0], [1, 2], [0], [0, 0], [2, 1, 0], [10, 0, 0, 0], [192, 168, 1, 0]]
+IDX_Q = [[1], [2], [1, 0], [1, 2], [0], [300], [20000], [16383], [16384]]
+IDX_T = [[1], [2], [10], [1, 0], [1, 2], [0], [0, 0], [2, 1, 0], [10, 0, 0, 0], [192, 168, 1, 0], [300], [20000], [16383], [16384], [127, 128]]
 
 
 def scenario(cells, nbrs, api, bulk, proto="v2c", cut="full"):
@@ -44,6 +44,10 @@ def run(ctx):
             for b in (bulks if not q else [rnd.choice(bulks)]):
                 S.append(scenario(list(cells), nb, api, b, proto=rnd.choice(["v2c"] * 6 + ["v3a_md5", "v3p_sha"]),
                                   cut=rnd.choice(["full", "one_row", "minus_one", "row_plus_one"])))
+    # SNMPv1 (GETNEXT tables only): the end of the view is reported as noSuchName for the whole PDU
+    for cells in rnd.sample(sets, 40 if q else 300):
+        for nb in ([], [NEIGH[0]], NEIGH):
+            S.append(scenario(list(cells), nb, "table", 0, proto="v1"))
     # the same fetches with the library's loggers at DEBUG (a configuration, not an input): nothing observable may change
     for sc in rnd.sample(S, 60 if q else 600):
         S.append(dict(sc, debuglog=True))
@@ -58,7 +62,7 @@ def run(ctx):
     ctx.evaluations += len(T)
     verdicts = ctx.validate("Trace_Table", T, chunk=3000)
     ctx.judge(T, verdicts, signature=sig, nontrivial=lambda tr, v: json.dumps([tr["scenario"]["db"], tr["scenario"]["api"], tr["scenario"]["bulk"]]) if len(tr["scenario"]["db"]) >= 2 else None)
-    ctx.rule = ("tables of 1..3 columns x index suffixes of 1..%d components (components 0 and 10, shared prefixes) with sparse columns, 0..n rows and neighbouring "
+    ctx.rule = ("tables of 1..3 columns x index suffixes of 1..%d components (components 0 and 10, shared prefixes, values either side of the one/two/three-octet sub-identifier boundaries) with sparse columns, 0..n rows and neighbouring "
                 "objects before / after the table (incl. a sibling arc whose decimal spelling extends the table's: .2 / .20), fetched with table(entry OID), "
                 "bulktable(table OID) at bulk sizes 1..10 under four agent truncation policies, raw and pythonic, a sample also with DEBUG logging on, and table() / bulktable() / table() of one table running concurrently on one client; every variant is compared with the rows the "
                 "database defines, hence with each other; non-trivial = distinct database with >= 2 objects") % (2 if q else 4)
